@@ -1,3 +1,5 @@
+import WS.Lemmas.ContentRF
+import WS.Lemmas.Sequences
 import WS.Lemmas.PairRoundtrip
 import WS.Lemmas.WriterMore
 import WS.Lemmas.MaskTrunc
@@ -84,6 +86,60 @@ theorem writeMessage_frames (s : W) (hi : Content.Idle s) (t : Nat) (ht : t = 1 
     ∃ fs : List PFrame, MsgShape t fs ∧ dataPayload fs = data ∧ ctlEvents fs = [] ∧
       (writeMessage s t data).2.wire = s.wire ++ encAll (!s.isServer) fs := by
   first | exact PairRoundtrip.writeMessage_frames .. | (apply PairRoundtrip.writeMessage_frames <;> assumption)
+
+
+open WS.ReaderDecodes WS.PairRoundtrip WS.Sequences WS.ContentRF WS.Content
+
+/-- round_trip for ANY NUMBER of messages ("every data message arrives exactly once, in send order"):
+    whatever a sequence of WriteMessage calls on one connection puts on the wire, a connection of the
+    opposite role reads (`readMsgs`: NextReader, then reads of any size k to the end, repeated) as
+    exactly that list of (type, payload) pairs; no handler is invoked, the following bytes are
+    untouched, the writer is idle again. By induction over the list from `round_trip`. -/
+theorem round_trip_sequence (s : W) (hi : Content.Idle s) (msgs : List (Nat × Bytes))
+    (hm : ∀ m ∈ msgs, (m.1 = 1 ∨ m.1 = 2) ∧ m.2.length < 2 ^ 40)
+    (c : Conn) (hc : ReaderIdle c) (hrole : c.r.isServer = !s.isServer) (rest : Bytes)
+    (hp : c.r.buf.pending = (writeMsgs s msgs).wire.drop s.wire.length ++ rest)
+    (hend : c.r.buf.t.together = false ∨ rest ≠ []) (hlim : c.r.limit ≤ 0) (k : Nat) (hk : 0 < k) :
+    ∃ c', readMsgs k msgs.length c = (msgs, c') ∧ ReaderIdle c' ∧ c'.r.buf.pending = rest ∧
+      c'.r.hlog = c.r.hlog ∧ Content.Idle (writeMsgs s msgs) := by
+  first | exact WS.Sequences.round_trip_sequence .. | (apply WS.Sequences.round_trip_sequence <;> assumption)
+
+/-- … with control messages in between ("control messages sent in between do not disturb it"): a
+    program of WriteMessage (text / binary) and WriteControl (ping / pong ≤ 125 bytes) calls, ending
+    with a data message, is read as exactly its data messages in send order, each once, and the
+    reader's handlers are invoked for exactly the control frames, in send order (`ctlOf`). -/
+theorem round_trip_sequence_with_controls (s : W) (hi : Content.Idle s) (items : List Item)
+    (hok : ∀ it ∈ items, it.ok)
+    (hlast : items = [] ∨ ∃ pre t d, items = pre ++ [.data t d])
+    (c : Conn) (hc : ReaderIdle c) (hrole : c.r.isServer = !s.isServer) (rest : Bytes)
+    (hp : c.r.buf.pending = (writeItems s items).wire.drop s.wire.length ++ rest)
+    (hend : c.r.buf.t.together = false ∨ rest ≠ []) (hlim : c.r.limit ≤ 0) (k : Nat) (hk : 0 < k) :
+    ∃ c', readMsgs k (dataOf items).length c = (dataOf items, c') ∧ ReaderIdle c' ∧
+      c'.r.buf.pending = rest ∧ c'.r.hlog = c.r.hlog ++ ctlOf items ∧
+      Content.Idle (writeItems s items) := by
+  first | exact WS.Sequences.round_trip_sequence_with_controls .. | (apply WS.Sequences.round_trip_sequence_with_controls <;> assumption)
+
+/-- the NextWriter round trip with `ReadFrom` (io.Copy into the message writer) among the pieces:
+    Write / WriteString of any sizes, ReadFrom of a source that hands out its bytes in reads of any
+    sizes — empty reads included — and ends with io.EOF, alone or together with its last bytes,
+    pings/pongs in between: one message on the wire whose payload is the concatenation of everything
+    written and copied, for every buffer size and either role (uncompressed connections) -/
+theorem message_roundtrip_readFrom (s : W) (hi : Idle s) (t : Nat) (ht : t = 1 ∨ t = 2) (ps : List Piece2)
+    (hps : ∀ p ∈ ps, p.ok) :
+    let s' := run s (messageOps2 s t ps)
+    Idle s' ∧
+    wireMessages s' = wireMessages s ++ [⟨t, false, (ps.map Piece2.bytes).flatten⟩] ∧
+    wireControls s' = wireControls s ++ (ps.map Piece2.ctl).flatten := by
+  first | exact WS.ContentRF.message_roundtrip_readFrom .. | (apply WS.ContentRF.message_roundtrip_readFrom <;> assumption)
+
+/-- the io.ReaderFrom contract: ReadFrom on the live writer of a data message of a healthy connection
+    reports exactly the number of bytes the source handed out, and no error, when the source ends with
+    io.EOF; in particular the loop terminates (the model's `.hang` outcome is never reached) -/
+theorem readFrom_reports_all_data (s : W) (m : MW) (r : Src) (hm : m.err = none) (hr : r.term = none)
+    (hcap : 0 < s.cap) (hb : m.buf.length ≤ s.cap) (hw : s.writeErr = none) (hf : s.faults = [])
+    (hft : isControl m.ft = false) :
+    (mwReadFrom s m r).1 = (r.chunks.flatten.length, none) := by
+  first | exact WS.ContentRF.readFrom_reports_all_data .. | (apply WS.ContentRF.readFrom_reports_all_data <;> assumption)
 
 
 /-! ### non-vacuity -/
@@ -204,6 +260,183 @@ example : (writeMessage witC1 (2 : Nat) witData).2.wire = witC1.wire ++ encAll (
 example : ∃ fs : List PFrame, MsgShape 1 fs ∧ dataPayload fs = List.replicate 300 0x41 ∧ ctlEvents fs = [] ∧
       (writeMessage witC (1 : Nat) (List.replicate 300 0x41)).2.wire = witC.wire ++ encAll (!witC.isServer) fs :=
   writeMessage_frames witC witC_idle 1 (Or.inl rfl) _ (by rw [List.length_replicate]; decide)
+
+/-! #### sequences of messages (`round_trip_sequence`, `round_trip_sequence_with_controls`) -/
+
+/-- a client connection whose write buffer was supplied by the caller and has room for 16 payload
+    bytes only (30 = maxFrameHeaderSize + 16); three masking keys in the key source -/
+def witS : W :=
+  { newW false 0 false false (some 30) with keys := [0x37, 0xfa, 0x21, 0x3d, 1, 2, 3, 4, 9, 8, 7, 6] }
+
+example : witS.cap = 16 := by decide
+
+def witS_idle : Content.Idle witS :=
+  ⟨rfl, rfl, rfl, (fun m h => by cases h), ⟨by decide, by decide⟩, ⟨[], by decide, rfl⟩, rfl⟩
+
+/-- three messages: text "hello", binary 00 01 … 27 (40 bytes: three frames of 16 + 16 + 8 with
+    that buffer), and an empty text message -/
+def witMsgs : List (Nat × Bytes) :=
+  [(1, [0x68, 0x65, 0x6c, 0x6c, 0x6f]), (2, (List.range 40).map UInt8.ofNat), (1, [])]
+
+def witMsgs_ok : ∀ m ∈ witMsgs, (m.1 = 1 ∨ m.1 = 2) ∧ m.2.length < 2 ^ 40 := by
+  intro m hm
+  simp only [witMsgs, List.mem_cons, List.not_mem_nil, or_false] at hm
+  rcases hm with rfl | rfl | rfl
+  · exact ⟨Or.inl rfl, by decide⟩
+  · exact ⟨Or.inr rfl, by decide⟩
+  · exact ⟨Or.inl rfl, by decide⟩
+
+/-- what the three WriteMessage calls put on the wire -/
+def witSeqWire : Bytes := (writeMsgs witS witMsgs).wire.drop witS.wire.length
+
+/-- evaluated: five masked frames, 11 + (22 + 22 + 14) + 6 bytes; the second message starts with a
+    non-final binary frame of 16 bytes under the second key, and the wire ends with the empty final
+    text frame under the second key again (the key source wrapped around) -/
+example : witSeqWire.length = 75 ∧
+    witSeqWire.take 11 = [0x81, 0x85, 0x37, 0xfa, 0x21, 0x3d, 0x68 ^^^ 0x37, 0x65 ^^^ 0xfa, 0x6c ^^^ 0x21, 0x6c ^^^ 0x3d, 0x6f ^^^ 0x37] ∧
+    (witSeqWire.drop 11).take 7 = [0x02, 0x90, 1, 2, 3, 4, 0 ^^^ 1] ∧
+    witSeqWire.drop 69 = [0x81, 0x80, 1, 2, 3, 4] := by decide +kernel
+
+/-- a server-side idle reader (bufio size 4096, no read limit, one pong already handled) whose pending
+    bytes are that wire followed by two stray bytes (the header of a masked ping): 9 bytes buffered,
+    the rest in two transport chunks of 30 and 36 + 2 bytes -/
+def witSeqRd : Conn :=
+  { w := newW true 4096 false false,
+    r := { isServer := true, nego := false, hlog := [.pong [7]],
+           buf := { size := 4096, buf := witSeqWire.take 9,
+                    t := { chunks := [(witSeqWire.drop 9).take 30, witSeqWire.drop 39 ++ [0x89, 0x80]] },
+                    total := 77 } } }
+
+def witSeqRd_pending : witSeqRd.r.buf.pending = (writeMsgs witS witMsgs).wire.drop witS.wire.length ++ [0x89, 0x80] := by
+  decide +kernel
+
+def witSeqRd_idle : ReaderIdle witSeqRd :=
+  ⟨rfl, rfl, rfl, ⟨by decide, by decide +kernel, by decide +kernel, (by intro e h; cases h)⟩, by decide, by decide +kernel,
+    (by intro id h; cases h), (by intro id h; cases h)⟩
+
+/-- non-vacuity of `round_trip_sequence`: `Content.Idle` for the small-buffer client, the per-message
+    hypotheses, `ReaderIdle` for the opposite-role reader, the pending bytes = evaluated wire ++ two
+    stray bytes, `hend` and the limit hypothesis hold together; reads of 7 bytes -/
+example : ∃ c', readMsgs 7 3 witSeqRd = (witMsgs, c') ∧ ReaderIdle c' ∧ c'.r.buf.pending = [0x89, 0x80] ∧
+      c'.r.hlog = witSeqRd.r.hlog ∧ Content.Idle (writeMsgs witS witMsgs) :=
+  round_trip_sequence witS witS_idle witMsgs witMsgs_ok witSeqRd witSeqRd_idle (by decide) [0x89, 0x80]
+    witSeqRd_pending (Or.inl rfl) (by decide) 7 (by decide)
+
+/-- the same instance evaluated directly on the model -/
+example : (readMsgs 7 3 witSeqRd).1 = witMsgs ∧ (readMsgs 7 3 witSeqRd).2.r.buf.pending = [0x89, 0x80] ∧
+    (readMsgs 7 3 witSeqRd).2.r.hlog = [.pong [7]] := by decide +kernel
+
+/-- a writer program: ping "p1", text "a", pong "q", binary 01 02 03 -/
+def witItems : List Item :=
+  [.ctl 9 [0x70, 0x31] 5, .data 1 [0x61], .ctl 10 [0x71] 5, .data 2 [1, 2, 3]]
+
+def witItems_ok : ∀ it ∈ witItems, it.ok := by
+  intro it h
+  simp only [witItems, List.mem_cons, List.not_mem_nil, or_false] at h
+  rcases h with rfl | rfl | rfl | rfl
+  · exact ⟨Or.inl rfl, by decide⟩
+  · exact ⟨Or.inl rfl, by decide⟩
+  · exact ⟨Or.inr rfl, by decide⟩
+  · exact ⟨Or.inr rfl, by decide⟩
+
+def witItems_last : witItems = [] ∨ ∃ pre t d, witItems = pre ++ [.data t d] :=
+  Or.inr ⟨[.ctl 9 [0x70, 0x31] 5, .data 1 [0x61], .ctl 10 [0x71] 5], 2, [1, 2, 3], rfl⟩
+
+/-- what the program puts on the wire of the client `witC1` (write buffer 4096, "Hello" already sent) -/
+def witItemsWire : Bytes := (writeItems witC1 witItems).wire.drop witC1.wire.length
+
+/-- evaluated: four masked frames (8 + 7 + 7 + 9 bytes): ping, text, pong, binary -/
+example : witItemsWire.length = 31 ∧ witItemsWire.take 2 = [0x89, 0x82] ∧ (witItemsWire.drop 8).take 2 = [0x81, 0x81] ∧
+    (witItemsWire.drop 15).take 2 = [0x8A, 0x81] ∧ (witItemsWire.drop 22).take 2 = [0x82, 0x83] := by decide +kernel
+
+/-- a server-side idle reader whose pending bytes are that wire followed by the first byte of a next
+    frame: 3 bytes buffered, the rest in chunks of 10 and 18 + 1 bytes -/
+def witItemsRd : Conn :=
+  { w := newW true 4096 false false,
+    r := { isServer := true, nego := false, hlog := [.pong [7]],
+           buf := { size := 4096, buf := witItemsWire.take 3,
+                    t := { chunks := [(witItemsWire.drop 3).take 10, witItemsWire.drop 13 ++ [0x81]] },
+                    total := 32 } } }
+
+def witItemsRd_pending : witItemsRd.r.buf.pending = (writeItems witC1 witItems).wire.drop witC1.wire.length ++ [0x81] := by
+  decide +kernel
+
+def witItemsRd_idle : ReaderIdle witItemsRd :=
+  ⟨rfl, rfl, rfl, ⟨by decide, by decide +kernel, by decide +kernel, (by intro e h; cases h)⟩, by decide, by decide +kernel,
+    (by intro id h; cases h), (by intro id h; cases h)⟩
+
+/-- non-vacuity of `round_trip_sequence_with_controls`: all hypotheses (including `hok` and `hlast`)
+    hold together; reads of 2 bytes. Both data messages arrive, the ping and pong handlers ran in
+    send order. -/
+example : ∃ c', readMsgs 2 (dataOf witItems).length witItemsRd = ([(1, [0x61]), (2, [1, 2, 3])], c') ∧ ReaderIdle c' ∧
+      c'.r.buf.pending = [0x81] ∧ c'.r.hlog = [.pong [7]] ++ [.ping [0x70, 0x31], .pong [0x71]] ∧
+      Content.Idle (writeItems witC1 witItems) :=
+  round_trip_sequence_with_controls witC1 witC1_idle witItems witItems_ok witItems_last witItemsRd witItemsRd_idle
+    (by decide +kernel) [0x81] witItemsRd_pending (Or.inl rfl) (by decide) 2 (by decide)
+
+/-- the same instance evaluated directly on the model -/
+example : (readMsgs 2 2 witItemsRd).1 = [(1, [0x61]), (2, [1, 2, 3])] ∧
+    (readMsgs 2 2 witItemsRd).2.r.hlog = [.pong [7], .ping [0x70, 0x31], .pong [0x71]] := by decide +kernel
+
+/-! #### ReadFrom (`message_roundtrip_readFrom`, `readFrom_reports_all_data`) -/
+
+/-- an io.Reader handing out "cd", then an empty read, then "efg" together with io.EOF -/
+def witSrc1 : Src := { chunks := [[0x63, 0x64], [], [0x65, 0x66, 0x67]], term := none, together := true }
+/-- an io.Reader handing out "hi" and then, separately, io.EOF -/
+def witSrc2 : Src := { chunks := [[0x68, 0x69]], term := none }
+
+/-- the pieces of one text message: Write "ab", io.Copy from `witSrc1`, a ping "pg", io.Copy from `witSrc2` -/
+def witPieces : List Piece2 :=
+  [.write [0x61, 0x62] false, .readFrom witSrc1, .control 9 [0x70, 0x67] 5, .readFrom witSrc2]
+
+def witPieces_ok : ∀ p ∈ witPieces, p.ok := by
+  intro p h
+  simp only [witPieces, List.mem_cons, List.not_mem_nil, or_false] at h
+  rcases h with rfl | rfl | rfl | rfl
+  · exact (by decide : [0x61, 0x62].length < 2 ^ 40)
+  · exact ⟨rfl, by decide⟩
+  · exact ⟨Or.inl rfl, by decide⟩
+  · exact ⟨rfl, by decide⟩
+
+/-- non-vacuity of `message_roundtrip_readFrom`: `Idle` and all `Piece2.ok` hold for the client `witC`;
+    the message on the wire is "abcdefghi" and the ping went out as a control frame -/
+example :
+    let s' := run witC (messageOps2 witC 1 witPieces)
+    Idle s' ∧
+    wireMessages s' = wireMessages witC ++ [⟨1, false, [0x61, 0x62, 0x63, 0x64, 0x65, 0x66, 0x67, 0x68, 0x69]⟩] ∧
+    wireControls s' = wireControls witC ++ [(9, [0x70, 0x67])] :=
+  message_roundtrip_readFrom witC witC_idle 1 (Or.inl rfl) witPieces witPieces_ok
+
+/-- evaluated: the wire is the masked ping (first key) followed by ONE final text frame of 9 bytes (second key) -/
+example : (run witC (messageOps2 witC 1 witPieces)).wire =
+    encAll true [⟨9, true, ⟨0x37, 0xfa, 0x21, 0x3d⟩, [0x70, 0x67]⟩,
+                       ⟨1, true, ⟨1, 2, 3, 4⟩, [0x61, 0x62, 0x63, 0x64, 0x65, 0x66, 0x67, 0x68, 0x69]⟩] := by
+  decide +kernel
+
+/-- a client connection with room for 8 payload bytes (22 = maxFrameHeaderSize + 8) after
+    NextWriter(BinaryMessage) and Write of 3 bytes: the live message writer has 3 buffered bytes -/
+def witRF : W :=
+  run { newW false 0 false false (some 22) with keys := [0x37, 0xfa, 0x21, 0x3d, 1, 2, 3, 4] }
+    [.nextWriter 2 [] [], .write 0 [0xa1, 0xa2, 0xa3] [] false]
+
+example : witRF.cap = 8 ∧ witRF.writer = some 0 ∧ (getMW witRF 0).buf = [0xa1, 0xa2, 0xa3] ∧ (getMW witRF 0).ft = 2 ∧
+    witRF.wire = [] := by decide +kernel
+
+/-- a source of 20 bytes in chunks of 7, 6 and 7, then io.EOF -/
+def witSrc20 : Src :=
+  { chunks := [[0, 1, 2, 3, 4, 5, 6], [7, 8, 9, 10, 11, 12], [13, 14, 15, 16, 17, 18, 19]], term := none }
+
+/-- non-vacuity of `readFrom_reports_all_data`: all seven hypotheses hold; ReadFrom reports 20 -/
+example : (mwReadFrom witRF (getMW witRF 0) witSrc20).1 = (20, none) :=
+  readFrom_reports_all_data witRF (getMW witRF 0) witSrc20 (by decide +kernel) rfl (by decide +kernel) (by decide +kernel)
+    (by decide +kernel) (by decide +kernel) (by decide +kernel)
+
+/-- evaluated: two full non-final frames of 8 bytes went out (binary under the first key, a
+    continuation under the second) and the last 7 bytes are in the buffer -/
+example : (mwReadFrom witRF (getMW witRF 0) witSrc20).2.1.wire =
+      encAll true [⟨2, false, ⟨0x37, 0xfa, 0x21, 0x3d⟩, [0xa1, 0xa2, 0xa3, 0, 1, 2, 3, 4]⟩,
+                         ⟨0, false, ⟨1, 2, 3, 4⟩, [5, 6, 7, 8, 9, 10, 11, 12]⟩] ∧
+    (mwReadFrom witRF (getMW witRF 0) witSrc20).2.2.buf = [13, 14, 15, 16, 17, 18, 19] := by decide +kernel
 
 end NonVacuity
 
